@@ -590,6 +590,18 @@ def trees_misc():
                         yield (f"fold:{op}:{x}{y}", mk(op, E("bool", x), E("bool", y)), {"fold", f"op{op}"})
                     yield (f"fold:{op}:{x}col", mk(op, E("bool", x), C("p")), {"fold", f"op{op}"})
                     yield (f"fold:{op}:col{x}", mk(op, C("p"), E("bool", x)), {"fold", f"op{op}"})
+    yield ("fold:eq-same", mk("==", L(7), L(7)), {"fold", "op=="})
+    yield ("fold:ne-same", mk("!=", L(7), L(7)), {"fold", "op!="})
+    yield ("fold:eq-neg", mk("==", L(-7), L(-7)) | mk("!=", L(0), L(-1)), {"fold", "op=="})
+    yield ("fold:null-eq-null", mk("==", E("null"), E("null")), {"fold", "null"})
+    yield ("fold:null-ne-null", mk("!=", E("null"), E("null")), {"fold", "null"})
+    yield ("fold:null-coalesce-col", mk("??", E("null"), a), {"fold", "null", "op??"})
+    yield ("fold:null-coalesce-lit", mk("??", E("null"), L(3)) + a, {"fold", "null", "op??"})
+    yield ("fold:lit-coalesce-col", mk("??", L(3), a), {"fold", "op??"})
+    yield ("fold:bool-eq", mk("==", E("bool", True), E("bool", True)) & mk("!=", E("bool", True), E("bool", False)), {"fold", "op=="})
+    yield ("fold:not-not", E("un", "!", E("un", "!", E("bool", False))) | p, {"fold", "un!"})
+    yield ("fold:neg-zero", E("un", "-", L(0)) + a, {"fold", "un-"})
+    yield ("fold:nested", mk("&&", mk("==", L(1), L(1)), mk("||", E("bool", False), p)), {"fold"})
     yield ("fold:neglit", -L(5) + a, {"fold", "un-"})
     yield ("fold:negneg", E("un", "-", E("un", "-", L(5))), {"fold", "un-"})
     yield ("fold:notlit", E("un", "!", E("bool", True)) | p, {"fold", "un!"})
@@ -618,9 +630,53 @@ def trees_div_i():
     yield ("divi:mulL", E("bin", "//", a * b, c), {"op//", "divi"})
 
 
+def trees_chains():
+    """four operands, every parenthesisation shape, operators of one precedence level (associativity within a level)"""
+    a, b, c, d = (C(x) for x in "abcd")
+    shapes = [
+        ("((ab)c)d", lambda o1, o2, o3: mk(o3, mk(o2, mk(o1, a, b), c), d)),
+        ("(a(bc))d", lambda o1, o2, o3: mk(o3, mk(o1, a, mk(o2, b, c)), d)),
+        ("(ab)(cd)", lambda o1, o2, o3: mk(o2, mk(o1, a, b), mk(o3, c, d))),
+        ("a((bc)d)", lambda o1, o2, o3: mk(o1, a, mk(o3, mk(o2, b, c), d))),
+        ("a(b(cd))", lambda o1, o2, o3: mk(o1, a, mk(o2, b, mk(o3, c, d)))),
+    ]
+    levels = [["+", "-"], ["*", "/", "%"], ["**"], ["??"]]
+    for ops in levels:
+        for o1 in ops:
+            for o2 in ops:
+                for o3 in ops:
+                    for sname, build_ in shapes:
+                        e = build_(o1, o2, o3)
+                        # modulo / integer division of a real operand is outside the int-only domain
+                        bad = False
+
+                        def walk(x, under_mod=False):
+                            nonlocal bad
+                            if x.k == "bin":
+                                if under_mod and x.a[0] in ("/", "**"):
+                                    bad = True
+                                walk(x.a[1], x.a[0] == "%")
+                                walk(x.a[2], x.a[0] == "%")
+                        walk(e)
+                        if bad:
+                            continue
+                        yield (f"chain:{o1}{o2}{o3}:{sname}", e, {f"op{o1}", f"op{o2}", f"op{o3}", "chain"})
+    p, q, r = (C(x) for x in "pqr")
+    for o1 in ("&&", "||"):
+        for o2 in ("&&", "||"):
+            yield (f"chain:{o1}{o2}:L", mk(o2, mk(o1, p, q), r), {"chain", f"op{o1}", f"op{o2}"})
+            yield (f"chain:{o1}{o2}:R", mk(o1, p, mk(o2, q, r)), {"chain", f"op{o1}", f"op{o2}"})
+
+
 def family_c02(tier, seed):
     out = []
     items = list(trees_pairs()) + list(trees_unary()) + list(trees_misc()) + list(trees_div_i())
+    chains = list(trees_chains())
+    if tier == "quick":
+        rc = random.Random(seed + 3)
+        rc.shuffle(chains)
+        chains = chains[:120]
+    items += chains
     d3 = list(trees_depth3())
     if tier == "quick":
         rnd = random.Random(seed)
